@@ -24,6 +24,7 @@ RULE = ("random for_all queries: universal variable of kind P or Q (|U| 1-4), th
         "condition on the free variables in either order; all free variables selected, or (a third of the cases with >= 2 free variables) only part of them; caching on and off; universal = flatten of plain numbers of a bound parent; universal = plain variable with a condition over a flattened element of a parent, the other condition before / after the for_all or absent (element unbound when the for_all is reached); feature-interaction queries of eqlmon/ix.py with for_all atoms (over the element's collection, over a sub-query containing a for_all, over a flatten with a free parent, over a plain variable with a two-object function predicate). "
         "Non-trivial: |U| >= 2 and the oracle result is neither empty nor all free assignments.")
 RULE += " Size cases (every tier): 40-60 universal values x 24-36 free bindings (well over a thousand condition evaluations per statement), the statement alone, and_-combined before / after, or as both alternatives of an or_; evaluated twice."
+RULE += ' Aborted first evaluation (every tier): 30% of the plain cases evaluate the same query object once with a property of the universal value raising at its 1st-7th access (also at the second or a later universal value) before the judged evaluation.'
 LEVEL_TEXT = ("Reference-model monitoring: rows of the real for_all query compared by identity with the universally "
               "quantified statement evaluated in plain Python. The node monitor must show ForAll entered with |U|>=2, "
               "compound conditions and partial bindings, i.e. the paths the repository's single test never reaches.")
